@@ -14,6 +14,7 @@
 #include "rtrlib/rtr_mgr_private.h"
 
 #include <arpa/inet.h>
+#include <errno.h>
 #include <limits.h>
 
 #include "enum_names.h"
@@ -112,6 +113,121 @@ static void run_enum_case(long c)
 	       expect ? expect : "null", expect ? "\"" : "", got ? "\"" : "", got ? got : "null", got ? "\"" : "");
 }
 
+/* The name a conversion returns is the caller's to keep ("changed from %s to %s"): all names are collected first and
+ * compared afterwards, then every value is converted once more in reverse order and the pointers of the first pass are
+ * compared again; and four threads convert different values concurrently, as the library's own socket threads do on
+ * every status change. */
+struct held {
+	const char *fn, *expect, *got;
+	int val;
+};
+
+static int collect_names(struct held *h, int reverse)
+{
+	int n = 0;
+
+	for (int f = 0; f < 2; f++) {
+		const struct enum_name *t = f ? MGR_STATUS : SOCKET_STATES;
+		int cnt = f ? N_MGR_STATUS : N_SOCKET_STATES;
+
+		for (int k = 0; k < cnt; k++) {
+			int i = reverse ? cnt - 1 - k : k;
+
+			h[n].fn = f ? "rtr_mgr_status_to_str" : "rtr_state_to_str";
+			h[n].val = t[i].value;
+			h[n].expect = t[i].name;
+			h[n].got = f ? rtr_mgr_status_to_str((enum rtr_mgr_status)t[i].value) : rtr_state_to_str((enum rtr_socket_state)t[i].value);
+			n++;
+		}
+	}
+	return n;
+}
+
+static void check_held(const struct held *h, int n, const char *when)
+{
+	char key[200];
+
+	for (int i = 0; i < n; i++) {
+		CNT("c20/held_names_compared");
+		if (!h[i].got || strcmp(h[i].got, h[i].expect) != 0) {
+			snprintf(key, sizeof(key), "C20:held-name:%s:%s:%s", when, h[i].fn, h[i].expect);
+			viol("C20", key, "%s(%d): the name returned reads %s%s%s %s, expected \"%s\"", h[i].fn, h[i].val, h[i].got ? "\"" : "",
+			     h[i].got ? h[i].got : "NULL", h[i].got ? "\"" : "", when, h[i].expect);
+		}
+	}
+}
+
+struct enum_thr {
+	pthread_t th;
+	int id;
+	long wrong, rounds;
+	char first_wrong[64];
+};
+
+static void *enum_thread(void *arg)
+{
+	struct enum_thr *t = arg;
+
+	for (long r = 0; r < 200000; r++) {
+		int i = (int)((t->id + r) % N_SOCKET_STATES), j = (int)((t->id * 3 + r) % N_MGR_STATUS);
+		const char *a = rtr_state_to_str((enum rtr_socket_state)SOCKET_STATES[i].value);
+		const char *b = rtr_mgr_status_to_str((enum rtr_mgr_status)MGR_STATUS[j].value);
+		char ca[64] = "", cb[64] = "";
+
+		if (a)
+			strncpy(ca, a, sizeof(ca) - 1);
+		if (b)
+			strncpy(cb, b, sizeof(cb) - 1);
+		t->rounds++;
+		if (strcmp(ca, SOCKET_STATES[i].name) != 0 || strcmp(cb, MGR_STATUS[j].name) != 0) {
+			if (!t->wrong)
+				snprintf(t->first_wrong, sizeof(t->first_wrong), "%s", strcmp(ca, SOCKET_STATES[i].name) ? ca : cb);
+			t->wrong++;
+		}
+	}
+	return NULL;
+}
+
+static void run_enumheld_case(long c)
+{
+	struct held h[64], h2[64];
+
+	if (N_SOCKET_STATES + N_MGR_STATUS > 64)
+		return;
+	if (c == 0) {
+		int n = collect_names(h, 0);
+
+		check_held(h, n, "after-all-values-were-converted");
+		collect_names(h2, 1);
+		check_held(h, n, "after-a-second-pass-in-reverse-order");
+		nontrivial(hmix(0x20, (uint64_t)n));
+	} else {
+		struct enum_thr t[4];
+		long wrong = 0, rounds = 0;
+
+		memset(t, 0, sizeof(t));
+		for (int i = 0; i < 4; i++) {
+			t[i].id = i;
+			pthread_create(&t[i].th, NULL, enum_thread, &t[i]);
+		}
+		for (int i = 0; i < 4; i++) {
+			pthread_join(t[i].th, NULL);
+			wrong += t[i].wrong;
+			rounds += t[i].rounds;
+		}
+		cnt_add("c20/concurrent_conversions_compared", (uint64_t)rounds * 2);
+		if (wrong) {
+			int w = 0;
+
+			while (w < 3 && !t[w].wrong)
+				w++;
+			viol("C20", "C20:name-wrong-under-concurrent-conversions", "%ld of %ld conversion pairs made by 4 threads at the same time gave a wrong name (first: \"%s\")", wrong,
+			     rounds, t[w].first_wrong);
+		}
+		nontrivial(hmix(0x21, (uint64_t)c));
+	}
+}
+
 /* ------------------------------------------------------------------ C19 helpers */
 static void __attribute__((noinline)) dirty_stack(int pattern)
 {
@@ -162,9 +278,11 @@ static int parse_det(const char *s, struct lrtr_ip_addr *out, const char *origin
 
 	memset(&a, 0x00, sizeof(a));
 	dirty_stack(0x00);
+	errno = ERANGE; /* whatever an earlier, unrelated call left behind is no input of the conversion either */
 	ra = lrtr_ip_str_to_addr(s, &a);
 	memset(&b, 0xff, sizeof(b));
 	dirty_stack(0xff);
+	errno = 0;
 	rb = lrtr_ip_str_to_addr(s, &b);
 	CNT("c19/parse_pairs");
 	if (ra != rb || (ra == 0 && !ip_same(&a, &b))) {
@@ -509,6 +627,94 @@ static void derive_and_judge(struct rng *r, const char *base, const char *origin
 	}
 }
 
+/* several threads convert at the same time, each its own addresses into its own buffers: the conversions share nothing
+ * a caller can see, so every text must parse back (inet_pton and library) to the address it was made from */
+struct ipmt_thr {
+	pthread_t th;
+	struct rng r;
+	long rounds, wrong;
+	char first[160];
+};
+
+static void *ipmt_thread(void *arg)
+{
+	struct ipmt_thr *t = arg;
+	struct lrtr_ip_addr mine[8];
+
+	for (int i = 0; i < 8; i++) {
+		if (i % 4 == 3) {
+			mine[i].ver = LRTR_IPV4;
+			mine[i].u.addr4.addr = rnd32(&t->r);
+		} else {
+			uint16_t w[8];
+
+			gen_v6(&t->r, (unsigned int)rndn(&t->r, 256), w);
+			words_to_ip(w, &mine[i]);
+		}
+	}
+	for (long k = 0; k < 60000; k++) {
+		const struct lrtr_ip_addr *ip = &mine[k % 8];
+		struct lrtr_ip_addr back;
+		char txt[INET6_ADDRSTRLEN + 4];
+		uint8_t raw[16];
+		bool ok;
+
+		memset(txt, 0x5a, sizeof(txt));
+		t->rounds++;
+		if (lrtr_ip_addr_to_str(ip, txt, INET6_ADDRSTRLEN) != 0) {
+			ok = false;
+			snprintf(txt, sizeof(txt), "(failed)");
+		} else if (ip->ver == LRTR_IPV4) {
+			ok = inet_pton(AF_INET, txt, raw) == 1 && ntohl(*(uint32_t *)(void *)raw) == ip->u.addr4.addr;
+		} else {
+			struct lrtr_ip_addr ref;
+
+			ok = inet_pton(AF_INET6, txt, raw) == 1;
+			if (ok) {
+				v6_from_bytes(raw, &ref);
+				ok = ip_same(&ref, ip);
+			}
+		}
+		if (ok)
+			ok = lrtr_ip_str_to_addr(txt, &back) == 0 && ip_same(&back, ip);
+		if (!ok) {
+			if (!t->wrong) {
+				txt[sizeof(txt) - 1] = 0;
+				snprintf(t->first, sizeof(t->first), "%.48s", txt);
+			}
+			t->wrong++;
+		}
+	}
+	return NULL;
+}
+
+static void run_ipmt_case(struct rng *r, long c)
+{
+	struct ipmt_thr t[4];
+	long wrong = 0, rounds = 0;
+
+	memset(t, 0, sizeof(t));
+	for (int i = 0; i < 4; i++) {
+		t[i].r.s = rnd64(r);
+		pthread_create(&t[i].th, NULL, ipmt_thread, &t[i]);
+	}
+	for (int i = 0; i < 4; i++) {
+		pthread_join(t[i].th, NULL);
+		wrong += t[i].wrong;
+		rounds += t[i].rounds;
+	}
+	cnt_add("c19/concurrent_roundtrips", (uint64_t)rounds);
+	if (wrong) {
+		int w = 0;
+
+		while (w < 3 && !t[w].wrong)
+			w++;
+		viol("C19", "C19:roundtrip-wrong-under-concurrent-conversions", "%ld of %ld round trips made by 4 threads at the same time failed (first text: \"%s\")", wrong, rounds,
+		     t[w].first);
+	}
+	nontrivial(hmix(0x19, (uint64_t)c));
+}
+
 static void run_ipstr_case(struct rng *r, long c)
 {
 	char s[128];
@@ -591,6 +797,10 @@ int main(int argc, char **argv)
 		rng_seed(&r, seed, (uint64_t)c);
 		if (!strcmp(mode, "enum"))
 			run_enum_case(c);
+		else if (!strcmp(mode, "enumheld"))
+			run_enumheld_case(c);
+		else if (!strcmp(mode, "ipmt"))
+			run_ipmt_case(&r, c);
 		else if (!strcmp(mode, "ip4"))
 			run_ip4_case(&r, c, stride);
 		else if (!strcmp(mode, "ip6"))
